@@ -212,6 +212,9 @@ def categorical_program(rng):
         for i, name in zip(range(k2 - 1), ["p", "q"]):
             it2[i][1] = name
         it2[-1][1] = None
+    if rng.random() < 0.3:
+        symbolic = any(isinstance(pr, str) and pr in ("p", "q") for _, pr in it2)
+        gen.compound_probability(it2 if symbolic or rng.random() < 0.5 else items, rng)
     body.append(["assign", "x", ["choice", it2]])
     r = rng.random()
     if r < 0.5:
